@@ -19,7 +19,9 @@ META = {
     "objects, callables, Markup, undefined) must return the value itself (identity) when it is not a string and the "
     "literal value of the string / the string itself otherwise.  Multi node: every sequence of <= 4 (thorough 5) pieces "
     "from {1, space, +, [, ], 'a', comma, {{ x }}, {{ s }}} x 6 contexts must return ast.literal_eval of the concatenated "
-    "text when Python reads it as a literal, the text otherwise.  Constant family: ~600 single-expression templates "
+    "text when Python reads it as a literal, the text otherwise; the same alphabet plus three constant pieces that render "
+    "to the empty string ({{ '' }}, {{ \"\" ~ \"\" }}, {{ ''|string }}) one piece less deep, and every menu value next to "
+    "such a piece (two nodes -> text, never identity).  Constant family: ~600 single-expression templates "
     "without variables whose value holds classes reachable from constants (alone, dict values/keys, lists, tuples, "
     "nested one level) must return the value built in Python, type-exactly.  Every case runs in a sync NativeEnvironment (render), an "
     "async-enabled one (render) and an async-enabled one (render_async under asyncio.run).",
@@ -121,6 +123,15 @@ SINGLE_SHAPES = [
     "{{ x if true else 0 }}",
 ]
 
+# x next to a constant output node that renders to nothing: two nodes, hence text, never identity
+TWO_NODE_SHAPES = [
+    "{{ x }}{{ '' }}",
+    "{{ '' }}{{ x }}",
+    '{{ x }}{{ "" ~ "" }}',
+    "{{ x }}{{ ''|string }}",
+    "{% if true %}{{ x }}{{ '' }}{% endif %}",
+]
+
 STRING_VALUES = [
     "", "1", "[1,2]", "None", " 1", "1 ", "\t1", "1\t", "\n1", "1\n", " [1]", "a", "'a'", '"a"', "1+1", "1,2", "1,",
     "True", "False", "true", "none", "{'a': 1}", "{1, 2}", "{}", "()", "(1)", "(1,)", "[", "]", "[]", "[1", "b'x'",
@@ -203,6 +214,36 @@ def single_shard(arg):
                         p.violation("C34/single/identity/" + type(value).__name__, {
                             "msg": f"{mode} {shape!r} with x={item}: got {got!r} ({type(got).__name__}), expected the "
                                    f"object itself", "script": SCRIPT % ((mode, shape, ctx_expr),)})
+        # the same value next to an empty-string constant node: result = literal of str(value), or that text
+        if kind == "missing":
+            value, ctx, ctx_expr = None, {}, "{}"
+            text = ""
+        else:
+            value = item if kind == "str" else eval(item, ns)  # noqa: S307
+            ctx = {"x": value}
+            ctx_expr = "{'x': %r}" % (item,) if kind == "str" else "{'x': %s}" % item
+            try:
+                text = str(value)
+            except Exception:  # noqa: BLE001 - StrictUndefined refuses str(); not part of this family
+                text = None
+        if text is not None:
+            want = literal_or_text(text)
+            for shape in TWO_NODE_SHAPES:
+                for mode in MODES:
+                    p.evals += 1
+                    out = render(mode, shape, ctx)
+                    if out[0] == "exc":
+                        p.sig((mode, "exc", out[1]))
+                        p.violation(f"C34/{mode}-{out[1].lower()}", {
+                            "msg": f"{mode} {shape!r} with {ctx_expr}: raised {out[1]}: {out[2]}",
+                            "script": SCRIPT % ((mode, shape, ctx_expr),)})
+                        continue
+                    got = out[1]
+                    p.sig((mode, "two-node", type(want).__name__, type(got).__name__))
+                    if canon(got) != canon(want):
+                        p.violation("C34/two-node/" + ("text" if isinstance(want, str) else "literal"), {
+                            "msg": f"{mode} {shape!r} with {ctx_expr}: got {got!r} ({type(got).__name__}), expected "
+                                   f"{want!r} ({type(want).__name__})", "script": SCRIPT % ((mode, shape, ctx_expr),)})
         p.sample({"kind": "single node", "value": item if kind != "str" else repr(item)[:60],
                   "shapes": len(SINGLE_SHAPES), "modes": MODES}, cap=1)
     return p
@@ -211,6 +252,10 @@ def single_shard(arg):
 # ----------------------------------------------------------------------------- multi-node templates
 
 PIECES = ["1", " ", "+", "[", "]", "'a'", ",", "{{ x }}", "{{ s }}"]
+# constant expressions that render to the empty string: each is still an output node of its own
+EMPTY_PIECES = ["{{ '' }}", '{{ "" ~ "" }}', "{{ ''|string }}"]
+ALL_PIECES = PIECES + EMPTY_PIECES
+_DYNAMIC = ("{{ x }}", "{{ s }}")
 CONTEXT_EXPRS = [
     "{'x': 1, 's': 'a'}",
     "{'x': None, 's': '1'}",
@@ -227,13 +272,15 @@ def expected_multi(seq, ctx):
     if len(seq) == 1 and seq[0] in ("{{ x }}", "{{ s }}"):
         v = ctx["x" if seq[0] == "{{ x }}" else "s"]
         return v if not isinstance(v, str) else literal_or_text(v)
-    text = "".join(str(ctx["x"]) if pc == "{{ x }}" else str(ctx["s"]) if pc == "{{ s }}" else pc for pc in seq)
+    text = "".join(str(ctx["x"]) if pc == "{{ x }}" else str(ctx["s"]) if pc == "{{ s }}" else
+                   "" if pc in EMPTY_PIECES else pc for pc in seq)
     return literal_or_text(text)
 
 
 def multi_shard(arg):
     """all piece sequences that start with `prefix` (only the prefix itself when exact_only)."""
-    prefix, maxlen, exact_only = arg
+    prefix, maxlen, exact_only, alphabet = arg
+    pieces = PIECES if alphabet == "base" else ALL_PIECES
     ns = _ns()
     contexts = [(e, eval(e, ns)) for e in CONTEXT_EXPRS]  # noqa: S307 - fixed menu above
     p = core.Part()
@@ -241,10 +288,12 @@ def multi_shard(arg):
         seqs = [tuple(prefix)]
     else:
         seqs = [tuple(prefix) + rest for n in range(0, maxlen - len(prefix) + 1)
-                for rest in itertools.product(PIECES, repeat=n)]
+                for rest in itertools.product(pieces, repeat=n)]
     for seq in seqs:
+        if alphabet == "ext" and not any(pc in EMPTY_PIECES for pc in seq):
+            continue  # covered by the base alphabet at a larger bound
         src = "".join(seq)
-        dynamic = any(pc.startswith("{{") for pc in seq)
+        dynamic = any(pc in _DYNAMIC for pc in seq)
         for ctx_expr, ctx in (contexts if dynamic else contexts[:1]):
             want = expected_multi(seq, ctx)
             for mode in MODES:
@@ -363,6 +412,8 @@ def run(ctx: core.Ctx):
         "whitespace, newlines and comments are handled as Python does",
         "CALIBRATED: a template without any output node returns None",
         "a single node that is a str subclass (Markup) counts as a string",
+        "a constant expression that renders to '' ({{ '' }}, {{ \"\" ~ \"\" }}, {{ ''|string }}) is an output node like any "
+        "other: alone it returns '', next to {{ x }} it makes the template a two-node template (literal of str(x) or the text)",
         "constant family: single-expression templates without context variables whose value holds classes reached from "
         "constants (true.__class__ ...) alone, as dict values/keys, in lists/tuples, nested one level; reference value "
         "built in Python, compared type-exactly (identity for a lone class)",
@@ -374,16 +425,21 @@ def run(ctx: core.Ctx):
              + [("missing", ["<x not in context>"])])
     n_const = len(list(const_cases()))
     ctx.pmap(const_shard, [(i, min(i + 40, n_const)) for i in range(0, n_const, 40)])
+    extlen = maxlen - 1  # the alphabet with the three empty-string constant pieces goes one piece less deep
     if ctx.quick:
-        shards = [((), maxlen, True)] + [((pc,), maxlen, False) for pc in PIECES]
+        shards = [((), maxlen, True, "base")] + [((pc,), maxlen, False, "base") for pc in PIECES]
+        shards += [((pc,), extlen, False, "ext") for pc in ALL_PIECES]
     else:
-        shards = [((), maxlen, True)] + [((pc,), maxlen, True) for pc in PIECES]
-        shards += [((a, b), maxlen, False) for a in PIECES for b in PIECES]
+        shards = [((), maxlen, True, "base")] + [((pc,), maxlen, True, "base") for pc in PIECES]
+        shards += [((a, b), maxlen, False, "base") for a in PIECES for b in PIECES]
+        shards += [((pc,), extlen, True, "ext") for pc in ALL_PIECES]
+        shards += [((a, b), extlen, False, "ext") for a in ALL_PIECES for b in ALL_PIECES]
     ctx.pmap(multi_shard, shards)
     ctx.viol.sort(key=lambda sd: (len(sd[1].get("msg", "")), sd[1].get("msg", "")))  # keep the shortest failing case per signature
     if ctx.counters.get("multi_cases_expected_literal", 0) < 100:
         raise core.HarnessError("piece alphabet did not bite: almost no literal-valued concatenations")
-    ctx.cov["bounds"] = {"pieces": PIECES, "max_pieces": maxlen, "contexts": CONTEXT_EXPRS, "modes": MODES,
+    ctx.cov["bounds"] = {"pieces": PIECES, "max_pieces": maxlen, "empty_string_pieces": EMPTY_PIECES,
+                         "max_pieces_with_empty_string_pieces": extlen, "two_node_shapes": TWO_NODE_SHAPES, "contexts": CONTEXT_EXPRS, "modes": MODES,
                          "single_shapes": SINGLE_SHAPES, "constant_expressions": n_const,
                          "constant_wrappers": CONST_WRAPPERS, "string_values": len(STRING_VALUES),
                          "other_values": len(VALUE_EXPRS)}
